@@ -67,11 +67,10 @@ pub fn run(tier: Tier, seed: u64) -> i32 {
         let label = format!("programs with {k} statements (8 atomic statements, 3 block headers, nesting <= 3) x all layouts with <= {maxdev} deviations (blank/whitespace/comment lines anywhere, blank lines before the header, CRLF on one line or all, trailing comment, no final newline)");
         let st = par_range(&label, n, &deadline, |idx, st| {
             let body = sp.unrank(k, idx);
-            let declares = body.iter().filter(|s| matches!(s, Stmt::Declare(..))).count();
-            if declares > 1 {
+            let prog = Program { header: vec!["A".into(), "Q".into()], body };
+            if prog.declares().len() > 1 {
                 return; // the same name declared twice is not a valid program
             }
-            let prog = Program { header: vec!["A".into(), "Q".into()], body };
             let ls = lines(&prog);
             if !ls.iter().any(|l| l.row.is_some()) {
                 return;
